@@ -260,6 +260,12 @@ class SimBackend:
         if job["done_at"] > self.now:
             self.now = job["done_at"]          # the client blocks: clock jumps to completion
         c, n_shots = job["circuit"], job["n_shots"] or 1
+        factor = self.plan.get("shots_factor") or 1
+        if factor != 1:
+            # a peer that takes another number of shots than it was asked for (a cap, a minimum, its own
+            # resolution): the frequencies are as exact, only their total is not n_shots
+            n_shots = n_shots * factor
+            self.stats["F4_other_shot_total"] += 1
         key = None
         if self.cache is not None and self.plan.get("cache_results"):
             key = (tuple(str(cmd) for cmd in c.get_commands()), c.n_qubits, len(c.bits), n_shots,
